@@ -70,6 +70,13 @@ def reuse_case(rng, fam):
         b = core_program(rng, fam, label_free=False)
         # dynamic labels are allocated per program: keep the `nd` lines, ids restart at 0 after take (labels.clear())
         bodies.append(b)
+    # sometimes one program of the chain is defective (its take/drain fails): what the assembler does next is compared with the model
+    # (the property itself only speaks about successfully finished programs)
+    if n >= 2 and rng.chance(1, 3):
+        k = rng.below(n - 1)
+        defect = rng.choice([["gl 8", "gl 8"], ["dl 7"], ["gl 8", "gl 8"]])
+        at = rng.below(len(bodies[k]) + 1)
+        bodies[k] = bodies[k][:at] + defect + bodies[k][at:]
     lines = [f"new vec {fam} base=0"]
     marks = []
     for b in bodies:
